@@ -88,6 +88,17 @@ def gen_fa(rng, kind=None, max_states=5, max_symbols=3, max_trans=9, plain_symbo
             "finals": finals, "ctor": rng.chance(0.25),
             "extra_symbols": ([rng.pick(["x", "y"])] if rng.chance(0.12) else []),
             "extra_states": []}
+    if rng.chance(0.18):
+        # editing history: transitions (and marks) that are added and removed again before the automaton is used
+        ghosts = []
+        for _ in range(rng.randint(1, 2)):
+            a = None if (kind == "enfa" and rng.chance(0.5)) else rng.pick(symbols)
+            g = [rng.pick(states), a, rng.pick(states)]
+            if g not in trans and g not in ghosts and not (kind == "dfa" and (g[0], g[1]) in seen):
+                ghosts.append(g)
+        case["ghost_trans"] = ghosts
+        if rng.chance(0.4):
+            case["ghost_final"] = rng.pick(states)
     return case
 
 
@@ -149,7 +160,22 @@ def ref_of(case):
     finals = {skey(case, s) for s in case["finals"]}
     st |= starts | finals
     alpha = {a for _, a, _ in tr if a is not None} | {ykey(case, s) for s in case.get("extra_symbols", [])}
+    for p, a, q in _ghosts(case):
+        if [p, a, q] not in case["trans"]:
+            st |= {skey(case, p), skey(case, q)}
+            if a is not None:
+                alpha.add(ykey(case, a))
+    if case.get("ghost_final") is not None:
+        st.add(skey(case, case["ghost_final"]))
     return Nfa(st, alpha, tr, starts, finals)
+
+
+def _ghosts(case):
+    """add-then-remove edits are replayed on the nondeterministic classes only (on a DFA an extra edge may
+    clash with a real one, which is refused by DuplicateTransitionError)"""
+    if case["kind"] == "dfa":
+        return []
+    return [g for g in (case.get("ghost_trans") or []) if not (g[1] is None and case["kind"] != "enfa")]
 
 
 def build(case):
@@ -171,8 +197,20 @@ def build(case):
             fa.add_start_state(s)
         for s in finals:
             fa.add_final_state(s)
+    ghosts = [g for g in _ghosts(case) if g not in case["trans"]]
+    gf = case.get("ghost_final")
+    if gf is not None and gf not in case["finals"]:
+        fa.add_final_state(sval(case, gf))
+    for p, a, q in ghosts[:1]:
+        fa.add_transition(sval(case, p), Epsilon() if a is None else yval(case, a), sval(case, q))
     for p, a, q in case["trans"]:
         fa.add_transition(sval(case, p), Epsilon() if a is None else yval(case, a), sval(case, q))
+    for p, a, q in ghosts[1:]:
+        fa.add_transition(sval(case, p), Epsilon() if a is None else yval(case, a), sval(case, q))
+    for p, a, q in ghosts:
+        fa.remove_transition(sval(case, p), Epsilon() if a is None else yval(case, a), sval(case, q))
+    if gf is not None and gf not in case["finals"]:
+        fa.remove_final_state(sval(case, gf))
     for s in case.get("extra_symbols", []):
         fa.add_symbol(yval(case, s))
     for s in case.get("extra_states", []):
@@ -243,6 +281,12 @@ def shrink_fa(case):
         yield mk(extra_symbols=[])
     if case.get("eps_string_edge"):
         yield mk(eps_string_edge=None)
+    if case.get("ghost_trans"):
+        yield mk(ghost_trans=None, ghost_final=None)
+        for i in range(len(case["ghost_trans"])):
+            yield mk(ghost_trans=case["ghost_trans"][:i] + case["ghost_trans"][i + 1:])
+    if case.get("ghost_final") is not None:
+        yield mk(ghost_final=None)
     if case.get("ctor"):
         yield mk(ctor=False)
     for i, t in enumerate(case["trans"]):
